@@ -135,7 +135,12 @@ def _cmd(draw, startable=False):
     if startable and what == 'missing':
         what = 'exit'
     if what == 'missing':
-        return {'kind': 'missing', 'how': draw(st.sampled_from(MISSING))}
+        how = draw(st.sampled_from(MISSING))
+        if draw(st.integers(0, 99)) == 57:        # (not an end point: those are drawn more often)
+            # a command that never ends, in a task created with the subprocess option timeout=:
+            # like a command that cannot be started, it has no exit status at all
+            how = 'timeout'
+        return {'kind': 'missing', 'how': how}
     cmd = {'kind': 'sh', 'form': draw(st.sampled_from(['inline', 'inline', 'file', 'exec', 'same', 'same'])),
            'out': draw(_TEXT), 'err': draw(_TEXT), 'first': draw(st.sampled_from(['out', 'err'])),
            'exit': 0, 'sig': None}
@@ -312,6 +317,10 @@ def _script(cmd, idx, marker):
     return '; '.join(parts)
 
 
+# seconds granted to each command of a task created with timeout= (the other commands of such a
+# task are one-line shell scripts that take milliseconds)
+TIMEOUT = 4.0
+
 class Exec:
     """One execution of one task: the command lines and what the model expects."""
 
@@ -451,6 +460,8 @@ class Exec:
             return [os.path.join(fix, 'badformat')]
         if how == 'nul':
             return ['/bin/sh\0', '-c', 'exit 0']
+        if how == 'timeout':
+            return ['/bin/sleep', '1000']
         raise ValueError(how)
 
     def build(self):
@@ -464,6 +475,8 @@ class Exec:
                 self.task = BuildTask(self.name, source=os.path.dirname(self.marker),
                                       configure_flags=['-DX=1'], targets=['all'])
                 self.task.CMAKE = clis[0][0]
+            elif any(cmd.get('how') == 'timeout' for cmd in self.cmds):
+                self.task = RunTask.from_clis(self.name, clis, timeout=TIMEOUT)
             elif ctor == 'cli' and len(clis) == 1:
                 self.task = RunTask.from_cli(self.name, clis[0])
             elif ctor == 'closure':
@@ -830,7 +843,7 @@ def _judge_code(exe, mode, tmp, fails):
         if mode == 'direct' and raised is not None:
             exe.features.add('unstartable-raises-in-do')
         elif status != TaskStatus.FAILED:
-            how = 'nul-in-command' if exe.start_fail == 'nul' else 'os-refuses'
+            how = {'nul': 'nul-in-command', 'timeout': 'timeout'}.get(exe.start_fail, 'os-refuses')
             fail('start_failure', f'start_failure/got={_status_name(status)}/{how}',
                  f'the tool cannot be started but the task is {status}')
     elif raised is not None:
@@ -930,7 +943,7 @@ def _judge_exec(exe, mode, root, tmp, state, fails):
         if mode == 'direct' and raised is not None:
             exe.features.add('unstartable-raises-in-do')
         elif status != TaskStatus.FAILED:
-            how = 'nul-in-command' if exe.start_fail == 'nul' else 'os-refuses'
+            how = {'nul': 'nul-in-command', 'timeout': 'timeout'}.get(exe.start_fail, 'os-refuses')
             fail('start_failure', f'start_failure/got={_status_name(status)}/{how}',
                  f'command {exe.first_bad} cannot be started but the task is {status}')
     else:
